@@ -544,6 +544,40 @@ def check_subscripts(ctx: Ctx) -> None:
                         if defs and all(d.kind == "assign" and isinstance(d.value, ast.Call) and isinstance(d.value.func, ast.Attribute)
                                         and d.value.func.attr == "split" and d.value.args for d in defs):
                             ok, why = True, "result of str.split(sep)"
+            if not ok and node is not None:
+                # an element of a local list of lists / strings that only ever receives non-empty elements:
+                #   if cur: groups.append(cur)  ...  groups[i][0]   /   for g in groups: g[0]
+                holder = None
+                if isinstance(base, ast.Subscript) and isinstance(base.value, ast.Name) and not isinstance(base.slice, ast.Slice):
+                    holder = base.value.id
+                elif isinstance(base, ast.Name):
+                    ds_ = flow.reaching(node, base.id)
+                    its = {d.node.ast.iter.id for d in ds_ if d.kind in ("iter", "for", "unpack", "assign") and d.node.kind == "for"
+                           and isinstance(d.node.ast.iter, ast.Name) and isinstance(d.node.ast.target, ast.Name)}
+                    if ds_ and len(its) == 1 and all(d.node.kind == "for" for d in ds_):
+                        holder = next(iter(its))
+                if holder is not None and holder not in fi.params:
+                    hdefs = [d for d in flow.defs if d.var == holder]
+                    good = bool(hdefs)
+                    n_app = 0
+                    for d in hdefs:
+                        if d.kind == "assign" and isinstance(d.value, ast.List) and not d.value.elts:
+                            continue
+                        if d.kind == "mutate" and isinstance(d.value, ast.Call) and isinstance(d.value.func, ast.Attribute) and d.value.func.attr == "append" \
+                                and len(d.value.args) == 1:
+                            ak = _path_key(d.value.args[0])
+                            fs_: set[str] = set()
+                            for b, lab in must_edges(flow.cfg, flow.cfg.entry, d.node) or set():
+                                if b.kind == "test":
+                                    fs_ |= facts_x(b.ast, lab == "T", b)
+                            shrinks = [d2 for d2 in flow.defs if d2.var == ak and d2.kind == "mutate" and isinstance(d2.value, ast.Call)
+                                       and isinstance(d2.value.func, ast.Attribute) and d2.value.func.attr in ("clear", "pop", "remove")]
+                            if ak is not None and ak in fs_ and not shrinks:  # (the appended object is not emptied later under another name)
+                                n_app += 1
+                                continue
+                        good = False
+                    if good and n_app:
+                        ok, why = True, f"element of `{holder}`, which only ever receives values tested non-empty"
             ctx.ob("R-TERM-index", okey, ok,
                    why or "constant index into a value that may be empty: no non-emptiness test dominates it (IndexError on an empty "
                           "string / list would escape to the caller)", where(fi, sub))
